@@ -235,6 +235,8 @@ class ClaferDoc:
 
     def __init__(self, text: str) -> None:
         self.declared_attrs: dict[str, str] = {}
+        self.raw_used: set[str] = set()          # identifiers exactly as spelled in constraints
+        self.raw_declared: set[str] = set()      # identifiers exactly as spelled in the hierarchy
         self.used_attrs: list[tuple[str, str]] = []
         self.constraints: list[Any] = []
         self.root: Optional[dict[str, Any]] = None
@@ -273,6 +275,7 @@ class ClaferDoc:
             m = _CL_LINE.match(body)
             if not m:
                 raise ExportError(f"Clafer: unreadable clafer line {body!r}")
+            self.raw_declared.add(m.group(3))
             node = {"abstract": bool(m.group(1)), "group": m.group(2), "name": m.group(3).strip('"'),
                     "raw_name": m.group(3), "super": m.group(4), "optional": bool(m.group(5)), "children": []}
             while stack and stack[-1][0] >= depth:
@@ -314,6 +317,7 @@ class ClaferDoc:
                 return e
             if t in _CL_PREC or t == ")":
                 raise ExportError(f"Clafer: unexpected {t!r} in {text!r}")
+            self.raw_used.add(t)
             return ("var", t.strip('"'))
 
         def binary(minprec: int) -> Any:
